@@ -110,7 +110,8 @@ struct Session {
     TwoParticleGFContainer* TPC;
     bool early;     // construct IndexClassification, IndexHamiltonian and Symmetrizer before any prepare() call
     bool earlyHam, earlySymm;
-    Session() : L(new Lattice), Idx(0), Ham(0), Symm(0), S(0), H(0), DM(0), Ops(0), GFC(0), TPC(0), early(false), earlyHam(false), earlySymm(false) {}
+    bool stress;    // every prepare()/compute() call is issued twice, values are re-evaluated, objects are copied
+    Session() : L(new Lattice), Idx(0), Ham(0), Symm(0), S(0), H(0), DM(0), Ops(0), GFC(0), TPC(0), early(false), earlyHam(false), earlySymm(false), stress(false) {}
 };
 
 static void dumpParts(const char* kind, unsigned i, unsigned j, FieldOperator& op) {
@@ -216,6 +217,9 @@ int main(int argc, char** argv) {
                 std::string lab; is >> lab;
                 const Lattice::Site& st = s.L->getSite(unhexLabel(lab));
                 out << "o ok " << hexLabel(st.Label) << " " << st.OrbitalSize << " " << st.SpinSize << "\n";
+            } else if (cmd == "stress") {
+                s.stress = true;
+                out << "o ok\n";
             } else if (cmd == "earlyctor") {
                 s.early = true;
                 out << "o ok\n";
@@ -308,6 +312,7 @@ int main(int argc, char** argv) {
                 }
             } else if (cmd == "hcompute") {
                 s.H->compute(world);
+                if (s.stress) { s.H->prepare(world); s.H->compute(world); }
                 out << "o ground " << hx::d(s.H->getGroundEnergy()) << "\n";
                 for (BlockNumber b = 0; b < s.S->NumberOfBlocks(); b++) {
                     const HamiltonianPart& hp = s.H->getPart(b);
@@ -327,6 +332,7 @@ int main(int argc, char** argv) {
                 double beta = hx::readD(is);
                 s.DM = new DensityMatrix(*s.S, *s.H, beta);
                 s.DM->prepare(); s.DM->compute();
+                if (s.stress) { s.DM->prepare(); s.DM->compute(); }
                 for (BlockNumber b = 0; b < s.S->NumberOfBlocks(); b++) {
                     const DensityMatrixPart& dp = s.DM->getPart(b);
                     size_t n = s.S->getBlockSize(b);
@@ -345,12 +351,14 @@ int main(int argc, char** argv) {
             } else if (cmd == "trunc") {
                 double eps = hx::readD(is);
                 s.DM->truncateBlocks(eps, false);
+                if (s.stress) s.DM->truncateBlocks(eps, false);
                 out << "o retained " << int(s.S->NumberOfBlocks());
                 for (BlockNumber b = 0; b < s.S->NumberOfBlocks(); b++) out << " " << int(s.DM->isRetained(b));
                 out << "\n";
             } else if (cmd == "fops") {
                 s.Ops = new FieldOperatorContainer(*s.Idx, *s.S, *s.H);
                 s.Ops->prepareAll(); s.Ops->computeAll();
+                if (s.stress) { s.Ops->prepareAll(); s.Ops->computeAll(); }
                 unsigned N = s.Idx->getIndexSize();
                 for (unsigned i = 0; i < N; ++i) {
                     dumpParts("cdag", i, 0, const_cast<CreationOperator&>(s.Ops->getCreationOperator(i)));
@@ -368,6 +376,16 @@ int main(int argc, char** argv) {
                 std::vector<double> taus = readDoubles(is);
                 GreensFunction G(*s.S, *s.H, s.Ops->getAnnihilationOperator(i), s.Ops->getCreationOperator(j), *s.DM);
                 G.prepare(); G.compute();
+                if (s.stress) {
+                    // repeated calls are harmless, a copy is the same function, re-evaluation returns the same number
+                    std::vector<ComplexType> first(ns.size());
+                    for (size_t k = 0; k < ns.size(); ++k) first[k] = G(ns[k]);
+                    G.prepare(); G.compute();
+                    GreensFunction Gcopy(G);
+                    bool ok = true;
+                    for (size_t k = ns.size(); k-- > 0;) ok = ok && G(ns[k]) == first[k] && Gcopy(ns[k]) == first[k];
+                    out << "o idem gf " << i << " " << j << " " << int(ok) << "\n";
+                }
                 if (!s.GFC) { s.GFC = new GFContainer(*s.Idx, *s.S, *s.H, *s.DM, *s.Ops); s.GFC->prepareAll(); s.GFC->computeAll(); }
                 const GreensFunction& Gc = (*s.GFC)(i, j);
                 out << "o gfvanish " << i << " " << j << " " << int(G.isVanishing()) << "\n";
@@ -387,6 +405,14 @@ int main(int argc, char** argv) {
                 TwoParticleGF X(*s.S, *s.H, s.Ops->getAnnihilationOperator(i), s.Ops->getAnnihilationOperator(j),
                                 s.Ops->getCreationOperator(k), s.Ops->getCreationOperator(l), *s.DM);
                 X.prepare(); X.compute();
+                if (s.stress) {
+                    std::vector<ComplexType> first(nt);
+                    for (size_t q = 0; q < nt; ++q) first[q] = X(tr[3*q], tr[3*q+1], tr[3*q+2]);
+                    X.prepare(); X.compute();
+                    bool ok = true;
+                    for (size_t q = nt; q-- > 0;) ok = ok && X(tr[3*q], tr[3*q+1], tr[3*q+2]) == first[q];
+                    out << "o idem chi " << i << " " << j << " " << k << " " << l << " " << int(ok) << "\n";
+                }
                 out << "o chivanish " << i << " " << j << " " << k << " " << l << " " << int(X.isVanishing()) << " " << X.parts.size() << "\n";
                 for (size_t q = 0; q < nt; ++q)
                     out << "o chi " << i << " " << j << " " << k << " " << l << " " << tr[3*q] << " " << tr[3*q+1] << " " << tr[3*q+2]
@@ -426,6 +452,14 @@ int main(int argc, char** argv) {
                 out << "o avg " << a << " " << b << " " << cplxStr(EA.getResult()) << "\n";
                 out << "o avg " << c << " " << d << " " << cplxStr(EB.getResult()) << "\n";
                 Susceptibility X0(*s.S, *s.H, A, B, *s.DM); X0.prepare(); X0.compute();
+                if (s.stress) {
+                    std::vector<ComplexType> first(ns.size());
+                    for (size_t k = 0; k < ns.size(); ++k) first[k] = X0(ns[k]);
+                    X0.prepare(); X0.compute();
+                    bool ok = true;
+                    for (size_t k = ns.size(); k-- > 0;) ok = ok && X0(ns[k]) == first[k];
+                    out << "o idem susc " << a << " " << b << " " << c << " " << d << " " << int(ok) << "\n";
+                }
                 Susceptibility X1(*s.S, *s.H, A, B, *s.DM); X1.prepare(); X1.compute(); X1.subtractDisconnected();
                 Susceptibility X2(*s.S, *s.H, A, B, *s.DM); X2.prepare(); X2.compute(); X2.subtractDisconnected(EA.getResult(), EB.getResult());
                 Susceptibility X3(*s.S, *s.H, A, B, *s.DM); X3.prepare(); X3.compute();
@@ -542,6 +576,7 @@ int main(int argc, char** argv) {
                 G13.prepare(); G13.compute(); G24.prepare(); G24.compute(); G14.prepare(); G14.compute(); G23.prepare(); G23.compute();
                 Vertex4 V(X, G13, G24, G14, G23);
                 V.compute(N);
+                if (s.stress) { V.compute(N + 1); V.compute(N); }     // re-filling the storage with another window and back
                 for (size_t q = 0; q < nt; ++q) {
                     long n1 = tr[3*q], n2 = tr[3*q+1], n3 = tr[3*q+2];
                     out << "o vertex " << i << " " << j << " " << k << " " << l << " " << N << " " << n1 << " " << n2 << " " << n3
